@@ -36,8 +36,10 @@ Example refused :
        Node "M" [] [Node "" [] []];
        Node "M" [] [Node "A" [] [Node "B" [] [Node "C" [] [Node "D" [] [Node "E" [] []]]]]];
        Node "M" [] [Node "conf.py" [] [Node "x" [] []]];
-       Node "M" [] [Node "A" [] []; Node "A.rst" [] [Node "x" [] []]]]
-  = repeat ([], Some 1) 7.
+       Node "M" [] [Node "A" [] []; Node "A.rst" [] [Node "x" [] []]];
+       Node "M" [] [Node ".static" [] [Node "valjean.css" [] [Node "x" [] []]]];
+       Node "M" [res 0 ["p0"]] [Node "figures" [] [Node "plot_p0.png" [] [Node "x" [] []]]]]
+  = repeat ([], Some 1) 9.
 Proof. vm_compute. reflexivity. Qed.
 
 (* nested "index", five levels, "A.rst" without sub-sections are fine *)
@@ -45,5 +47,7 @@ Example accepted :
   forallb writable
       [Node "M" [] [Node "A" [] [Node "index" [] []]];
        Node "M" [] [Node "A" [] [Node "B" [] [Node "C" [] [Node "D" [] []]]]];
-       Node "index" [] [Node "A" [] []; Node "A.rst" [] []]] = true.
+       Node "index" [] [Node "A" [] []; Node "A.rst" [] []];
+       Node "M" [] [Node ".static" [] [Node "valjean.css" [] []]];
+       Node "M" [] [Node "figures" [] [Node "plot_p0.png" [] [Node "x" [] []]]]] = true.
 Proof. vm_compute. reflexivity. Qed.
